@@ -651,7 +651,7 @@ func init() {
 	core.Register(&core.Prop{
 		ID:    "C06",
 		Level: "model_checking",
-		Rule: "bounded-exhaustive layouts from the reference writer, on real directories through the exported API: the default layout, EVERY single deviation (all 719 packet-group permutations of the index, duplication of each packet, every exponent subset of {0,1,2,5,9,100,2000} of size<=4, 1-3 volume files, 6 volume-name families incl. spaces and glob metacharacters, 9 base names incl. [ ] * ? \\ and non-ASCII, a foreign-set packet at each position, an unknown-type packet at each position (8-byte, empty and 1 KiB bodies; empty-bodied foreign-set packet), volumes with full / creator-only / creator+main / trailing core packets, sub-directory file names, names nested 3-24 directories deep (relative names of 120-980 bytes with 40-byte components), reversed+duplicated recovery packets, 6 damage patterns, goroutines), and all PAIRS of deviations (quick: reduced permutation list; thorough: all permutations, plus all triples over the reduced list). " +
+		Rule: "(later rounds added: recovery blocks stored in several volume files; the double check as a dimension of its own; unknown packet types that resemble the standard ones; creator client ids of 1..61 bytes; the decoder protocol search with faults over a foreign layout; the foreign set verified by itself afterwards) bounded-exhaustive layouts from the reference writer, on real directories through the exported API: the default layout, EVERY single deviation (all 719 packet-group permutations of the index, duplication of each packet, every exponent subset of {0,1,2,5,9,100,2000} of size<=4, 1-3 volume files, 6 volume-name families incl. spaces and glob metacharacters, 9 base names incl. [ ] * ? \\ and non-ASCII, a foreign-set packet at each position, an unknown-type packet at each position (8-byte, empty and 1 KiB bodies; empty-bodied foreign-set packet), volumes with full / creator-only / creator+main / trailing core packets, sub-directory file names, names nested 3-24 directories deep (relative names of 120-980 bytes with 40-byte components), reversed+duplicated recovery packets, 6 damage patterns, goroutines), and all PAIRS of deviations (quick: reduced permutation list; thorough: all permutations, plus all triples over the reduced list). " +
 			"Oracle: counts equal gopar's own canonical set for the same data and damage and equal the reference (all intact blocks found); Repair succeeds whenever every K-subset of the stored exponents is non-singular by the reference. non-trivial = damaged scenario repaired",
 		Assumptions: []string{"layouts stay inside the statement's envelope: index without recovery packets and starting with an own-set packet, creator packet in every file, ASCII file names, no non-recovery-set files"},
 		NewCase:     func() interface{} { c := c06Default(); return &c },
